@@ -1,3 +1,4 @@
 import Fips204.Basic
 import Fips204.Gen.Consts
 import Fips204.Gen.Kernels
+import Fips204.Impl.Sample
